@@ -793,7 +793,7 @@ make_xen_pfn_map_auto(kdump_ctx_t *ctx, const struct section *sect)
 			if (status != KDUMP_OK)
 				goto err_read;
 		}
-		pfn = dump64toh(ctx, *(uint64_t*)fce.data);
+		pfn = dump64toh(ctx, get_unaligned_uint64_t(fce.data));
 
 		if (pfn >= max_pfn)
 			max_pfn = pfn + 1;
@@ -818,7 +818,7 @@ make_xen_pfn_map_auto(kdump_ctx_t *ctx, const struct section *sect)
 	return status;
 
  err_pfn:
-	pfn = dump64toh(ctx, *(uint64_t*)fce.data);
+	pfn = dump64toh(ctx, get_unaligned_uint64_t(fce.data));
 	set_error(ctx, status, "Cannot map %s 0x%"PRIx64" -> 0x%"PRIxFAST64,
 		  "PFN", pfn, range.idx);
 	fcache_put(&fce);
@@ -854,8 +854,9 @@ make_xen_pfn_map_nonauto(kdump_ctx_t *ctx, const struct section *sect)
 			if (status != KDUMP_OK)
 				goto err_read;
 		}
-		p2m.pfn = dump64toh(ctx, ((struct xen_p2m*)fce.data)->pfn);
-		p2m.gmfn = dump64toh(ctx, ((struct xen_p2m*)fce.data)->gmfn);
+		memmove(&p2m, fce.data, sizeof p2m);
+		p2m.pfn = dump64toh(ctx, p2m.pfn);
+		p2m.gmfn = dump64toh(ctx, p2m.gmfn);
 
 		if (p2m.pfn >= max_pfn)
 			max_pfn = p2m.pfn + 1;
@@ -886,14 +887,16 @@ make_xen_pfn_map_nonauto(kdump_ctx_t *ctx, const struct section *sect)
 	return status;
 
  err_pfn:
-	p2m.pfn = dump64toh(ctx, ((struct xen_p2m*)fce.data)->pfn);
+	memmove(&p2m, fce.data, sizeof p2m);
+	p2m.pfn = dump64toh(ctx, p2m.pfn);
 	set_error(ctx, status, "Cannot map %s 0x%"PRIx64" -> 0x%"PRIxFAST64,
 		  "PFN", p2m.pfn, pfnrange.idx);
 	fcache_put(&fce);
 	return status;
 
 err_mfn:
-	p2m.gmfn = dump64toh(ctx, ((struct xen_p2m*)fce.data)->gmfn);
+	memmove(&p2m, fce.data, sizeof p2m);
+	p2m.gmfn = dump64toh(ctx, p2m.gmfn);
 	set_error(ctx, status, "Cannot map %s 0x%"PRIx64" -> 0x%"PRIxFAST64,
 			 "MFN", p2m.gmfn, mfnrange.idx);
 	fcache_put(&fce);
@@ -1212,7 +1215,7 @@ init_elf32(kdump_ctx_t *ctx, Elf32_Ehdr *ehdr)
 	phnum = dump16toh(ctx, ehdr->e_phnum);
 	offset = dump32toh(ctx, ehdr->e_shoff);
 	if (offset != 0 && (shnum == 0 || phnum == PN_XNUM)) {
-		Elf32_Shdr *sect;
+		Elf32_Shdr sect;
 
 		entsz = dump16toh(ctx, ehdr->e_shentsize);
 		if (entsz < sizeof(Elf32_Shdr))
@@ -1221,12 +1224,12 @@ init_elf32(kdump_ctx_t *ctx, Elf32_Ehdr *ehdr)
 					0, offset);
 		if (ret != KDUMP_OK)
 			return set_hdr_error(ctx, ret, "section", 0, offset);
-		sect = (Elf32_Shdr*) fch.data;
+		memcpy(&sect, fch.data, sizeof sect);
 
 		if (shnum == 0)
-			shnum = dump32toh(ctx, sect->sh_size);
+			shnum = dump32toh(ctx, sect.sh_size);
 		if (shnum > 0 && phnum == PN_XNUM)
-			phnum = dump32toh(ctx, sect->sh_info);
+			phnum = dump32toh(ctx, sect.sh_info);
 
 		fcache_put_chunk(&fch);
 	}
@@ -1244,7 +1247,7 @@ init_elf32(kdump_ctx_t *ctx, Elf32_Ehdr *ehdr)
 	if (phnum && entsz < sizeof(Elf32_Phdr))
 		return set_hdr_size_error(ctx, "program", entsz);
 	for (i = 0; i < phnum; ++i) {
-		Elf32_Phdr *prog;
+		Elf32_Phdr prog;
 		struct load_segment *pls;
 
 		ret = flatmap_get_chunk(ctx->shared->flatmap, &fch, entsz,
@@ -1252,17 +1255,17 @@ init_elf32(kdump_ctx_t *ctx, Elf32_Ehdr *ehdr)
 		if (ret != KDUMP_OK)
 			return set_hdr_error(ctx, ret, "program", i, offset);
 		offset += entsz;
-		prog = (Elf32_Phdr*) fch.data;
+		memcpy(&prog, fch.data, sizeof prog);
 
-		pls = next_phdr(edp, dump32toh(ctx, prog->p_type));
+		pls = next_phdr(edp, dump32toh(ctx, prog.p_type));
 		if (pls) {
-			pls->file_offset = dump32toh(ctx, prog->p_offset);
-			pls->filesz = dump32toh(ctx, prog->p_filesz);
-			pls->phys = dump32toh(ctx, prog->p_paddr);
+			pls->file_offset = dump32toh(ctx, prog.p_offset);
+			pls->filesz = dump32toh(ctx, prog.p_filesz);
+			pls->phys = dump32toh(ctx, prog.p_paddr);
 			if (pls->phys == UINT32_MAX)
 				pls->phys = ADDRXLAT_ADDR_MAX;
-			pls->memsz = dump32toh(ctx, prog->p_memsz);
-			pls->virt = dump32toh(ctx, prog->p_vaddr);
+			pls->memsz = dump32toh(ctx, prog.p_memsz);
+			pls->virt = dump32toh(ctx, prog.p_vaddr);
 		}
 		fcache_put_chunk(&fch);
 	}
@@ -1272,19 +1275,19 @@ init_elf32(kdump_ctx_t *ctx, Elf32_Ehdr *ehdr)
 	if (shnum && entsz < sizeof(Elf32_Shdr))
 		return set_hdr_size_error(ctx, "section", entsz);
 	for (i = 0; i < shnum; ++i) {
-		Elf32_Shdr *sect;
+		Elf32_Shdr sect;
 
 		ret = flatmap_get_chunk(ctx->shared->flatmap, &fch, entsz,
 					0, offset);
 		if (ret != KDUMP_OK)
 			return set_hdr_error(ctx, ret, "section", i, offset);
 		offset += entsz;
-		sect = (Elf32_Shdr*) fch.data;
+		memcpy(&sect, fch.data, sizeof sect);
 
 		store_sect(edp,
-			   dump32toh(ctx, sect->sh_offset),
-			   dump32toh(ctx, sect->sh_size),
-			   dump32toh(ctx, sect->sh_name));
+			   dump32toh(ctx, sect.sh_offset),
+			   dump32toh(ctx, sect.sh_size),
+			   dump32toh(ctx, sect.sh_name));
 		fcache_put_chunk(&fch);
 	}
 
@@ -1311,7 +1314,7 @@ init_elf64(kdump_ctx_t *ctx, Elf64_Ehdr *ehdr)
 	phnum = dump16toh(ctx, ehdr->e_phnum);
 	offset = dump64toh(ctx, ehdr->e_shoff);
 	if (offset != 0 && (shnum == 0 || phnum == PN_XNUM)) {
-		Elf64_Shdr *sect;
+		Elf64_Shdr sect;
 
 		entsz = dump16toh(ctx, ehdr->e_shentsize);
 		if (entsz < sizeof(Elf64_Shdr))
@@ -1320,12 +1323,12 @@ init_elf64(kdump_ctx_t *ctx, Elf64_Ehdr *ehdr)
 					0, offset);
 		if (ret != KDUMP_OK)
 			return set_hdr_error(ctx, ret, "section", 0, offset);
-		sect = (Elf64_Shdr*) fch.data;
+		memcpy(&sect, fch.data, sizeof sect);
 
 		if (shnum == 0)
-			shnum = dump64toh(ctx, sect->sh_size);
+			shnum = dump64toh(ctx, sect.sh_size);
 		if (shnum > 0 && phnum == PN_XNUM)
-			phnum = dump32toh(ctx, sect->sh_info);
+			phnum = dump32toh(ctx, sect.sh_info);
 
 		fcache_put_chunk(&fch);
 	}
@@ -1343,7 +1346,7 @@ init_elf64(kdump_ctx_t *ctx, Elf64_Ehdr *ehdr)
 	if (phnum && entsz < sizeof(Elf64_Phdr))
 		return set_hdr_size_error(ctx, "program", entsz);
 	for (i = 0; i < phnum; ++i) {
-		Elf64_Phdr *prog;
+		Elf64_Phdr prog;
 		struct load_segment *pls;
 
 		ret = flatmap_get_chunk(ctx->shared->flatmap, &fch, entsz,
@@ -1351,17 +1354,17 @@ init_elf64(kdump_ctx_t *ctx, Elf64_Ehdr *ehdr)
 		if (ret != KDUMP_OK)
 			return set_hdr_error(ctx, ret, "program", i, offset);
 		offset += entsz;
-		prog = (Elf64_Phdr*) fch.data;
+		memcpy(&prog, fch.data, sizeof prog);
 
-		pls = next_phdr(edp, dump32toh(ctx, prog->p_type));
+		pls = next_phdr(edp, dump32toh(ctx, prog.p_type));
 		if (pls) {
-			pls->file_offset = dump64toh(ctx, prog->p_offset);
-			pls->filesz = dump64toh(ctx, prog->p_filesz);
-			pls->phys = dump64toh(ctx, prog->p_paddr);
+			pls->file_offset = dump64toh(ctx, prog.p_offset);
+			pls->filesz = dump64toh(ctx, prog.p_filesz);
+			pls->phys = dump64toh(ctx, prog.p_paddr);
 			if (pls->phys == UINT64_MAX)
 				pls->phys = ADDRXLAT_ADDR_MAX;
-			pls->memsz = dump64toh(ctx, prog->p_memsz);
-			pls->virt = dump64toh(ctx, prog->p_vaddr);
+			pls->memsz = dump64toh(ctx, prog.p_memsz);
+			pls->virt = dump64toh(ctx, prog.p_vaddr);
 		}
 		fcache_put_chunk(&fch);
 	}
@@ -1371,19 +1374,19 @@ init_elf64(kdump_ctx_t *ctx, Elf64_Ehdr *ehdr)
 	if (shnum && entsz < sizeof(Elf64_Shdr))
 		return set_hdr_size_error(ctx, "section", entsz);
 	for (i = 0; i < shnum; ++i) {
-		Elf64_Shdr *sect;
+		Elf64_Shdr sect;
 
 		ret = flatmap_get_chunk(ctx->shared->flatmap, &fch, entsz,
 					0, offset);
 		if (ret != KDUMP_OK)
 			return set_hdr_error(ctx, ret, "section", i, offset);
 		offset += entsz;
-		sect = (Elf64_Shdr*) fch.data;
+		memcpy(&sect, fch.data, sizeof sect);
 
 		store_sect(edp,
-			   dump64toh(ctx, sect->sh_offset),
-			   dump64toh(ctx, sect->sh_size),
-			   dump32toh(ctx, sect->sh_name));
+			   dump64toh(ctx, sect.sh_offset),
+			   dump64toh(ctx, sect.sh_size),
+			   dump32toh(ctx, sect.sh_name));
 		fcache_put_chunk(&fch);
 	}
 
